@@ -95,6 +95,8 @@ type coordSim struct {
 	pviol []pendViol
 	// ground truth used for known-finding keys
 	replicaChanged map[string]bool
+	layoutPanic    bool
+	operatorCmds   int
 	inTail         bool
 	tailStart      time.Time
 
@@ -185,15 +187,16 @@ func runCoord(c *core.RunCtx) {
 			// the caller: infrastructure trouble, not a verdict
 			c.Count("infra.bubble_panic", 1)
 			c.Log("infra", "bubble panic: %v", e)
+			fmt.Printf("pdsim: bubble ended with panic (counted as inconclusive): %.600v\n", e)
 			c.Inconclusive++
 		}
 	}()
 	s := &coordSim{c: c, t: c.Tape, metas: map[string]*cluster.NamespaceMetaInfo{}, parts: map[string]map[int]*part{},
 		kv: map[string]string{}, dnodes: map[string]*dnode{}, byHost: map[string]*dnode{}, stats: map[string]int64{},
-		buf: map[string][]bufLine{}, replicaChanged: map[string]bool{}, nsNotify: make(chan struct{}),
-		leaderW: &leaderWatch{note: make(chan struct{}, 1)}}
+		buf: map[string][]bufLine{}, replicaChanged: map[string]bool{}}
 	s.cfg = drawCoordCfg(c)
 	synctest.Test(c.T, func(t *testing.T) { s.run() })
+	dumpMemLog()
 	for _, k := range core.SortedKeys(s.stats) {
 		c.Stats[k] += s.stats[k]
 	}
@@ -471,6 +474,95 @@ func sortedRemKeys(m map[string]cluster.RemovingInfo) []string {
 	return ks
 }
 
+// wouldLayoutPanic is called (without s.mu held) when the placement driver is
+// about to compute a layout (its getCurrentPartitionNodes reads the register
+// immediately before): the real layout function is evaluated on the same
+// inputs - register content and the coordinator's own view of the data nodes -
+// under recover. A panic there would kill the placement driver process (and
+// this worker); it is recorded as a violation and the caller makes the read
+// fail so that the coordinator skips the computation.
+func (s *coordSim) wouldLayoutPanic() bool {
+	type in struct {
+		ns             string
+		parts, replica int
+		old            [][]string
+		long           bool
+	}
+	var ins []in
+	s.mu.Lock()
+	for _, ns := range s.nsOrder {
+		m := s.metas[ns]
+		x := in{ns: ns, parts: m.PartitionNum, replica: m.Replica}
+		for pid, p := range s.parts[ns] {
+			if p.cur == nil {
+				continue
+			}
+			for pid >= len(x.old) {
+				x.old = append(x.old, nil)
+			}
+			x.old[pid] = isrOf(p.cur)
+			if len(x.old[pid]) > m.Replica {
+				x.long = true
+			}
+		}
+		ins = append(ins, x)
+	}
+	opRemoving := map[string]bool{}
+	for _, d := range s.dnodeOrder {
+		if d.opRemoving {
+			opRemoving[d.info.ID] = true
+		}
+	}
+	s.mu.Unlock()
+	all, _ := s.pd.GetAllDataNodes()
+	sets := []map[string]cluster.NodeInfo{all}
+	if len(opRemoving) > 0 {
+		m := map[string]cluster.NodeInfo{}
+		for k, v := range all {
+			if !opRemoving[k] {
+				m[k] = v
+			}
+		}
+		sets = append(sets, m)
+	}
+	ver := s.cfg.balanceVer
+	if ver == "" {
+		ver = pdnode_coord.BalanceV2Str
+	}
+	for _, x := range ins {
+		for _, nodes := range sets {
+			msg := func() (msg string) {
+				defer func() {
+					if e := recover(); e != nil {
+						msg = fmt.Sprint(e)
+					}
+				}()
+				pdnode_coord.VerifGetRebalancedNamespacePartitions(x.ns, x.parts, x.replica, cloneLayout(x.old), nodes, ver)
+				return ""
+			}()
+			if msg != "" {
+				key := ""
+				if x.long {
+					key = "v2-panic-current-list-longer-than-replica"
+				}
+				var nl []string
+				for k := range nodes {
+					nl = append(nl, nshort(k))
+				}
+				sort.Strings(nl)
+				s.mu.Lock()
+				s.layoutPanic = true
+				s.stats["probe.layout_panic_predicted"]++
+				s.violLocked("pd-crash", key, "the placement driver would crash: layout function panics (%s) on the register content it is about to use: namespace %s partitions=%d replication=%d current=%s live nodes=%v (t=%s)",
+					msg, x.ns, x.parts, x.replica, layoutShort(x.old), nl, s.clock())
+				s.mu.Unlock()
+				return true
+			}
+		}
+	}
+	return false
+}
+
 // ---------------------------------------------------------------------------
 // fake data nodes
 // ---------------------------------------------------------------------------
@@ -486,6 +578,15 @@ func (s *coordSim) quorumAliveLocked(p *part) bool {
 }
 
 // api answers the coordinator's HTTP queries (intercepted common.APIRequest).
+var (
+	errAPINoRoute = fmt.Errorf("sim: no route to host")
+	errAPITimeout = fmt.Errorf("sim: i/o timeout")
+	errAPIRefused = fmt.Errorf("sim: connection refused")
+	errAPIReset   = fmt.Errorf("sim: connection reset")
+	errAPI404     = fmt.Errorf("sim: got error response 404 no namespace found")
+	errAPI406     = fmt.Errorf("sim: got error response 406 raft node is not synced yet")
+)
+
 func (s *coordSim) api(method string, endpoint string, body io.Reader, timeout time.Duration, ret interface{}) (bool, int, error) {
 	rest := strings.TrimPrefix(endpoint, "http://")
 	i := strings.Index(rest, "/")
@@ -514,7 +615,7 @@ func (s *coordSim) api(method string, endpoint string, body io.Reader, timeout t
 	}
 	if d == nil {
 		s.mu.Unlock()
-		return true, 0, fmt.Errorf("req %v error no route to host", endpoint)
+		return true, 0, errAPINoRoute
 	}
 	if !d.up {
 		record(false, "unreachable")
@@ -523,27 +624,27 @@ func (s *coordSim) api(method string, endpoint string, body io.Reader, timeout t
 		s.mu.Unlock()
 		if slow {
 			time.Sleep(timeout)
-			return true, 0, fmt.Errorf("req %v error i/o timeout", endpoint)
+			return true, 0, errAPITimeout
 		}
-		return true, 0, fmt.Errorf("req %v error connection refused", endpoint)
+		return true, 0, errAPIRefused
 	}
 	if now.Before(d.apiErrTo) {
 		record(false, "request error")
 		s.stats["fault.api_error"]++
 		s.mu.Unlock()
-		return true, 0, fmt.Errorf("req %v error connection reset", endpoint)
+		return true, 0, errAPIReset
 	}
 	defer s.mu.Unlock()
 	if !isSync && !isMembers {
 		s.stats["api.other"]++
-		return true, 404, fmt.Errorf("req %v got error response 404", endpoint)
+		return true, 404, errAPI404
 	}
 	if p == nil {
-		return true, 404, fmt.Errorf("req %v got error response 404 no namespace found", endpoint)
+		return true, 404, errAPI404
 	}
 	if _, ok := p.members[d.info.ID]; !ok {
 		record(false, "no namespace (not a raft member)")
-		return true, 404, fmt.Errorf("req %v got error response 404 no namespace found", endpoint)
+		return true, 404, errAPI404
 	}
 	if isMembers {
 		s.stats["api.members"]++
@@ -551,9 +652,12 @@ func (s *coordSim) api(method string, endpoint string, body io.Reader, timeout t
 		if !ok {
 			return true, 500, fmt.Errorf("sim: unexpected result type %T", ret)
 		}
-		for _, n := range sortedIDKeys(p.members) {
-			*out = append(*out, &common.MemberInfo{ID: p.members[n], NodeID: cluster.ExtractRegIDFromGenID(n), GroupName: full})
+		if p.memCache == nil {
+			for _, n := range sortedIDKeys(p.members) {
+				p.memCache = append(p.memCache, &common.MemberInfo{ID: p.members[n], NodeID: cluster.ExtractRegIDFromGenID(n), GroupName: full})
+			}
 		}
+		*out = append(*out, p.memCache...)
 		return true, 200, nil
 	}
 	s.stats["api.synced"]++
@@ -561,12 +665,12 @@ func (s *coordSim) api(method string, endpoint string, body io.Reader, timeout t
 	if synced && now.Before(d.falseNegTo) {
 		s.stats["fault.sync_status_false"]++
 		record(false, "not synced (false negative)")
-		return true, 406, fmt.Errorf("req %v got error response 406 raft node is not synced yet", endpoint)
+		return true, 406, errAPI406
 	}
 	if !synced {
 		s.stats["api.synced_no"]++
 		record(false, "not synced")
-		return true, 406, fmt.Errorf("req %v got error response 406 raft node is not synced yet", endpoint)
+		return true, 406, errAPI406
 	}
 	record(true, "synced")
 	return true, 200, nil
@@ -610,6 +714,7 @@ func (s *coordSim) stepDataNodesLocked() {
 				p.members[n] = p.cur.RaftIDs[n]
 				p.syncedAt[n] = now.Add(s.cfg.catchDelay)
 			}
+			p.memCache = nil
 			continue
 		}
 		q := s.quorumAliveLocked(p)
@@ -628,6 +733,7 @@ func (s *coordSim) stepDataNodesLocked() {
 			d := s.dnodes[n]
 			if d != nil && d.up && q && !now.Before(p.joinSeen[jk].Add(s.cfg.joinDelay)) {
 				p.members[n] = id
+				p.memCache = nil
 				p.syncedAt[n] = now.Add(s.cfg.catchDelay)
 				s.c.Log("joined", "%s %s=%d", p.name(), nshort(n), id)
 			}
@@ -644,6 +750,7 @@ func (s *coordSim) stepDataNodesLocked() {
 			}
 			if q && !now.Before(p.removeSeen[rk].Add(s.cfg.removeDelay)) {
 				delete(p.members, n)
+				p.memCache = nil
 				s.c.Log("left", "%s %s=%d", p.name(), nshort(n), mid)
 			}
 		}
@@ -663,8 +770,8 @@ func (s *coordSim) advance(d time.Duration) {
 		time.Sleep(st)
 		synctest.Wait()
 		s.mu.Lock()
-		s.stepDataNodesLocked()
 		s.flushLocked()
+		s.stepDataNodesLocked()
 		s.mu.Unlock()
 		rem -= st
 	}
@@ -680,6 +787,10 @@ func (s *coordSim) settle() {
 func (s *coordSim) run() {
 	c, t, g := s.c, s.t, s.cfg
 	s.start = time.Now()
+	// channels must be made inside the bubble (blocking on an outside channel is
+	// not a durable block and synctest.Wait would never return)
+	s.nsNotify = make(chan struct{})
+	s.leaderW = &leaderWatch{note: make(chan struct{}, 1)}
 	c.Log(fmt.Sprintf("cfg/n%d/p%d/r%d/i%d", g.nNodes, g.parts, g.replica, g.intervals), "dc=%d ver=%q join=%s catch=%s remove=%s events=%d w=%v",
 		g.nDC, g.balanceVer, g.joinDelay, g.catchDelay, g.removeDelay, g.events, g.w)
 
@@ -943,9 +1054,14 @@ func (s *coordSim) event(kind int) {
 		s.mu.Lock()
 		p := s.pickPart(func(p *part) bool { return p.cur != nil })
 		if p != nil {
-			s.idx++
-			p.cur.VerifSetEpoch(cluster.EpochType(s.idx))
-			c.Log("casbump", "%s epoch=%d", p.name(), s.idx)
+			if t.Choose(2) == 0 {
+				s.idx++
+				p.cur.VerifSetEpoch(cluster.EpochType(s.idx))
+				c.Log("casbump", "%s epoch=%d", p.name(), s.idx)
+			} else {
+				p.conflictNext++
+				c.Log("casbump", "%s at next direct read", p.name())
+			}
 		}
 		s.mu.Unlock()
 	case evRegOutage:
@@ -990,6 +1106,7 @@ func (s *coordSim) event(kind int) {
 		}
 		s.mu.Unlock()
 		if d != nil {
+			s.operatorCmds++
 			err := s.pd.MarkNodeAsRemoving(d.info.ID)
 			c.Log("markremoving", "%s: %v", nshort(d.info.ID), err)
 			if err != nil {
@@ -1008,6 +1125,7 @@ func (s *coordSim) event(kind int) {
 		}
 		s.mu.Unlock()
 		if ns != "" && nr >= 1 && nr <= 5 {
+			s.operatorCmds++
 			err := s.pd.ChangeNamespaceMetaParam(ns, nr, "", 0)
 			c.Log("replicachange", "%s -> %d: %v", ns, nr, err)
 			if err == nil {
@@ -1018,6 +1136,7 @@ func (s *coordSim) event(kind int) {
 		}
 	case evUpgrade:
 		s.upgrade = !s.upgrade
+		s.operatorCmds++
 		err := s.pd.SetClusterUpgradeState(s.upgrade)
 		c.Log("upgrade", "%v: %v", s.upgrade, err)
 		if err != nil {
@@ -1048,7 +1167,7 @@ func (s *coordSim) tail() {
 		}
 	}
 	for _, p := range s.sortedParts() {
-		p.failWrites, p.lostAcks = 0, 0
+		p.failWrites, p.lostAcks, p.conflictNext = 0, 0, 0
 	}
 	s.countRegLocked()
 	s.pushNodesLocked()
@@ -1078,7 +1197,12 @@ func (s *coordSim) tail() {
 		}
 	}
 	excluded := ""
-	if 2*reg <= s.maxReg {
+	if s.operatorCmds > 0 {
+		// operator commands (mark a node as removing, change the replication
+		// factor, upgrade mode) redefine what the coordinator is supposed to
+		// converge to; the liveness tail is only evaluated for histories without them
+		excluded = "operator_commands"
+	} else if 2*reg <= s.maxReg {
 		excluded = "mass_failure" // the coordinator's guard: at most half of the largest node count seen is left
 	}
 	var expect []*part
@@ -1087,9 +1211,11 @@ func (s *coordSim) tail() {
 			continue
 		}
 		r := s.metas[p.ns].Replica
+		// replicas on nodes the operator marked as removing do not count: the
+		// coordinator deliberately treats such nodes as gone
 		upISR := 0
 		for _, n := range isrOf(p.cur) {
-			if d := s.dnodes[n]; d != nil && d.up {
+			if d := s.dnodes[n]; d != nil && d.up && !d.opRemoving {
 				upISR++
 			}
 		}
@@ -1115,10 +1241,9 @@ func (s *coordSim) tail() {
 		return
 	}
 	c.Count("tail_runs_checked", 1)
-	bound := 2 * time.Hour
-	if g.intervals == 1 {
-		bound = 8 * time.Hour
-	}
+	// bound: 2 simulated hours with the shortened (test) intervals of the
+	// coordinator, scaled for the longer interval sets
+	bound := tailBound(g.intervals)
 	chunk := g.step
 	deadline := now.Add(bound)
 	for {
@@ -1151,17 +1276,52 @@ func (s *coordSim) tail() {
 		if !time.Now().Before(deadline) {
 			s.mu.Lock()
 			var stuck []string
+			// Known findings are recognised from ground truth only:
+			// (A) a replica is marked for removal and another remaining replica of
+			//     that partition is down (the coordinator cannot finish the removal
+			//     because it needs an answer from every remaining replica, and does not
+			//     handle the second failure while a removal is pending);
+			// (B) the balancer is observed polling for a node it added to become ready
+			//     (it waits without limit, holding the balance lock, and no pending
+			//     removal anywhere is finished while that lock is held);
+			// (C) the simulator suppressed a layout computation that would have
+			//     crashed the coordinator (reported separately as pd-crash).
+			balancerWaits := s.balancerWaitsLocked(bound)
+			allA, allPending := true, true
 			for _, p := range expect {
-				if !p.recovered {
-					stuck = append(stuck, fmt.Sprintf("%s %s members=%v", p.name(), verString(p.cur), s.memberString(p)))
+				if p.recovered {
+					continue
 				}
+				stuck = append(stuck, fmt.Sprintf("%s %s members=%v", p.name(), verString(p.cur), s.memberString(p)))
+				downISR := 0
+				for _, n := range isrOf(p.cur) {
+					if d := s.dnodes[n]; d == nil || !d.up {
+						downISR++
+					}
+				}
+				if len(p.cur.Removings) != 1 {
+					allPending = false
+				}
+				if !(len(p.cur.Removings) == 1 && downISR > 0) {
+					allA = false
+				}
+			}
+			key := ""
+			switch {
+			case s.layoutPanic:
+				key = "tail-stuck-layout-panic-suppressed"
+			case balancerWaits != "" && allPending:
+				key = "tail-stuck-balancer-waits-holding-balance-lock"
+				stuck = append(stuck, "balancer waits for "+balancerWaits)
+			case allA:
+				key = "tail-stuck-removal-pending-while-other-replica-down"
 			}
 			var nodes []string
 			for _, d := range s.dnodeOrder {
 				nodes = append(nodes, fmt.Sprintf("%s up=%v reg=%v oprm=%v", nshort(d.info.ID), d.up, d.registered, d.opRemoving))
 			}
 			s.mu.Unlock()
-			c.Violate("C18", "tail-liveness", "", "no faults for %s but partitions are not back to full replication: %v; nodes: %v", bound, stuck, nodes)
+			c.Violate("C18", "tail-liveness", key, "no faults for %s but partitions are not back to full replication: %v; nodes: %v", bound, stuck, nodes)
 			break
 		}
 		s.advance(chunk)
@@ -1171,6 +1331,40 @@ func (s *coordSim) tail() {
 	}
 	// let balancing go on for a while: every write is still checked
 	s.advance(time.Duration(s.t.Range(0, 20)) * g.step * 5)
+}
+
+// tailBound: the stated liveness bound per interval set. The longest chain
+// the coordinator needs for one partition (mark, finish removal, add; twice
+// for two lost replicas) is about 4 x (wait-migrate + wait-remove) - 1 min,
+// 5 min and 1.5 h for the three interval sets.
+func tailBound(intervals int) time.Duration {
+	switch intervals {
+	case 0:
+		return 20 * time.Minute
+	case 1:
+		return 10 * time.Hour
+	default:
+		return 90 * time.Minute
+	}
+}
+
+// balancerWaitsLocked: observation of "the balance loop is inside its
+// unbounded wait": the coordinator's wait loop (addNodeToNamespaceAndWaitReady)
+// re-reads the partition from the register in every iteration; the fake
+// register recognises that caller. The balancer counts as stuck when it has
+// been polling one partition for at least half of the tail and still did so
+// within the last minute.
+func (s *coordSim) balancerWaitsLocked(bound time.Duration) string {
+	now := time.Now()
+	for _, p := range s.sortedParts() {
+		if p.cur == nil || p.balPollLast.IsZero() {
+			continue
+		}
+		if now.Sub(p.balPollLast) <= time.Minute && p.balPollLast.Sub(p.balPollFirst) >= bound/2 {
+			return fmt.Sprintf("a node of %s %s since t=%s", p.name(), verString(p.cur), p.balPollFirst.Sub(s.start))
+		}
+	}
+	return ""
 }
 
 func (s *coordSim) memberString(p *part) string {
